@@ -317,7 +317,9 @@ pub async fn run_world_async(cfg: WorldCfg) -> WorldResult {
     } else {
         None
     };
+    PROTOCOL_PENDING_POLLS.with(|p| p.set((cfg.seed % 3) as usize));
     let client = build_client(routes.clone(), pool, if cfg.tls { Some(client_tls(&["h2", "http/1.1"])) } else { None }, None);
+    PROTOCOL_PENDING_POLLS.with(|p| p.set(0));
     let mut outcomes = Vec::new();
     let mut next_id = 1u64 + (cfg.seed % 1000) * 1_000_000;
     let mut hang = false;
